@@ -18,7 +18,7 @@ CONSTANTS
   ImpPairs <- MCImpQ
   InitSchemas <- MCInit3
   MaxHist = 3
-  Dev <- MCAllDevs
+  Dev <- MCCurDevs
 VIEW View
 INVARIANTS TypeOK SchemaOK LayoutOK GenerateTotal
 PROPERTIES MethodsKeptND FilesParseND IdealRecorded Deterministic
